@@ -92,8 +92,22 @@ def impl_write(G, uri, inc, newver=None):
 def write_request(tables, uri, inc, newver, fname):
     return [Sym("write_doc"), tables[:4], [uri, inc, T0.isoformat(), "NOW", [] if newver is None else [newver], fname]]
 
-def make_graph(rng, quick, hostile=False, clash=False):
-    g = nsgen.gen_graph(rng, n_ns=rng.randint(1, 3), n_nodes=rng.randint(2, 6 if quick else 9), hostile=hostile, dangling=False, value_gen=parseprops.value_gen)
+def make_graph(rng, quick, hostile=False, clash=False, shape=None):
+    g = nsgen.gen_graph(rng, n_ns=3 if shape else rng.randint(1, 3), n_nodes=rng.randint(5, 7) if shape else rng.randint(2, 6 if quick else 9), hostile=hostile, dangling=False, value_gen=parseprops.value_gen)
+    if shape == "skip-middle" and len(g.uris) == 3:
+        # namespace A (first) never uses B (second) but qualifies a browse name with C (third): when A is written, B is dropped and C's index moves
+        A, B, C = g.uris
+        mineA = [k for k in g.order if k[0] == A]
+        if not mineA:
+            k = (A, "i", "7001"); g.nodes[k] = dict(cls="UAObject", bname=(A, "Shape"), display="Shape", desc=None, attrs={}, value=None); g.order.append(k); mineA = [k]
+            g.refs.append(((UA, "i", "85"), k, (UA, "i", "35")))
+        g.nodes[mineA[0]]["bname"] = (C, g.nodes[mineA[0]]["bname"][1])
+        for k in mineA[1:]:
+            if g.nodes[k]["bname"][0] == B: g.nodes[k]["bname"] = (A, g.nodes[k]["bname"][1])
+        for k in mineA:
+            for a_, v_ in list(g.nodes[k]["attrs"].items()):
+                if isinstance(v_, tuple) and v_[0] == B: g.nodes[k]["attrs"][a_] = (UA, "i", "85") if a_ != "DataType" else (UA, "i", "24")
+        g.refs = [r for r in g.refs if not ((r[0][0] == A or r[1][0] == A) and B in (r[0][0], r[1][0], r[2][0]))]
     if clash:          # one browse name carried by nodes of two node classes
         own = [k for k in g.order if k[0] != UA]
         pairs = [(a, b) for a in own for b in own if g.nodes[a]["cls"] != g.nodes[b]["cls"]]
@@ -114,7 +128,7 @@ def make_graph(rng, quick, hostile=False, clash=False):
     ds = nsgen.serialise(g, rng, value_xml=parseprops.value_xml)
     return g, ds
 
-REG_REQS = []; REG_META = []; TXT_REQS = []; TXT_META = []
+REG_REQS = []; REG_META = []; TXT_REQS = []; TXT_META = []; CAUSES_OF = {}
 def correspondence(ctx, prop, rng, work, reqs, meta, G, tables, g, ci, inc_choices=(True, False)):
     outs = {}
     for uri in g.uris:
@@ -127,6 +141,7 @@ def correspondence(ctx, prop, rng, work, reqs, meta, G, tables, g, ci, inc_choic
             REG_REQS.append([Sym("write_regular")] + write_request(tables, uri, inc, newver, "out.xml")[1:])
             TXT_REQS.append([Sym("write_text")] + write_request(tables, uri, inc, newver, "out.xml")[1:]); TXT_META.append((ci, uri, inc, out))
             REG_META.append((ci, uri, inc, write_causes(G, tables, uri, out, inc)))
+            CAUSES_OF[(ci, uri, inc)] = REG_META[-1][3]
             outs[(uri, inc)] = out
     return outs
 
@@ -283,7 +298,7 @@ def run(ctx, prop):
     try:
         for ci in range({"quick": 14, "thorough": 300}[ctx.tier]):
             hostile = rng.random() < 0.4
-            g, ds = make_graph(rng, ctx.quick(), hostile=hostile)
+            g, ds = make_graph(rng, ctx.quick(), hostile=hostile, shape="skip-middle" if ci % 7 == 0 else None)
             files = [(n, docs.render(d, rng)) for n, d, _ in ds]
             paths = graphprops.write_files(work, files)
             st, G = graphprops.build(paths)
@@ -357,8 +372,29 @@ def run(ctx, prop):
         else: io = ["err"]
         mm = mo if mo[0] == "ok" else ["err"]
         if io == mm or (io[0] == "ok" and mm[0] == "ok" and same_doc(io[1], mm[1])): continue
-        stream = "out-of-domain" if io[0] == "ill-formed" else "write"
-        ctx.disagree(stream, dict(case=ci, uri=uri, inc=inc), io if io[0] != "ok" else "document differs", mm if mm[0] != "ok" else "document differs")
+        # where the code splices strings into markup without escaping, the element-level model (what a reader gives back) does not apply;
+        # the text-level model below is compared character for character on those cases too
+        unesc = CAUSES_OF.get((ci, uri, inc), set()) & {"raw-nodeid-attribute", "quote-in-attribute", "uri-unescaped"}
+        stream = "out-of-domain" if (io[0] == "ill-formed" or unesc) else "write"
+        def first_diff(a, b):
+            if a[0] != "ok" or b[0] != "ok": return None
+            a = copy.deepcopy(a)
+            try:
+                for ma, mb in zip(a[1][2][0], b[1][2][0]):
+                    for ra, rb in zip(ma[1], mb[1]):
+                        for x, y in zip(ra, rb):
+                            if y == ["PublicationDate", "NOW"] and x[0] == "PublicationDate": x[1] = "NOW"
+            except Exception: pass
+            for i, (x, y) in enumerate(zip(a[1], b[1])):
+                if x != y:
+                    if i == 4:
+                        for nx, ny in zip(x, y):
+                            if nx != ny: return "node: impl %r | model %r" % (nx, ny)
+                        return "node count %d vs %d" % (len(x), len(y))
+                    return "part %d: impl %r | model %r" % (i, x, y)
+            return None
+        fd = first_diff(io, mm)
+        ctx.disagree(stream, dict(case=ci, uri=uri, inc=inc), io if io[0] != "ok" else "document differs: %s" % (fd or "")[:700], mm if mm[0] != "ok" else "document differs")
     ctx.notes["unsupported_by_model"] = uns
     pick = [i for i in range(len(reqs)) if len(vlib.to_sx(reqs[i])) < 9000][:6]
     ctx.crosscheck = vlib.coq_crosscheck([reqs[i] for i in pick], [ans[i] for i in pick], prop.lower())
